@@ -314,11 +314,19 @@ func (p *Parser) parseInExpression(left Expression) Expression {
 		return nil
 	}
 
-	return &InExpression{
+	expression := &InExpression{
 		Token: p.curToken,
 		Left:  left,
 		Range: p.parseCallArguments(),
 	}
+
+	if expression.Range != nil && len(expression.Range) == 0 {
+		p.errors = append(p.errors, "Syntax error; IN needs at least one operand")
+
+		return nil
+	}
+
+	return expression
 }
 
 func (p *Parser) parseCallArguments() []Expression {
